@@ -6,6 +6,18 @@ VERIF = os.path.dirname(HERE)
 ALL = ["C%02d" % i for i in range(1, 19)]
 
 CLAIMS = {
+    "C10": dict(
+        text=("Rocq proof over the line-level model of FileManager.add_note/delete_note: deletion removes exactly "
+              "len(body lines) lines starting at the FIRST line containing ' ZID ' and keeps every other line in order; "
+              "insertion replaces exactly one line, which is blank whenever the page ends with a newline (induction on the "
+              "scan); both deviations of the full statement (ZID mentioned earlier, no trailing newline) are REFUTED by "
+              "witnesses (known findings). Tied to the code by running the real note_utils.move_note on copies of indexed "
+              "directories for sampled (note, destination, marker) triples and comparing exit code and both files "
+              "byte-for-byte with the model (hidden metadata, text form, add, delete), plus spec clauses on the result."),
+        note=("PARTIAL: the recompilation clause (same notes, metadata kept) is checked with the real compiler, not proved. "
+              "The index lookup is the real repository's."),
+        technique="Rocq proof (line-level add/delete lemmas, refutation witnesses) + byte-exact correspondence + recompilation spec check",
+        design="§5 C10"),
     "C09": dict(
         text=("Rocq proof over the model of _group_notes_by/_order_notes_by/_select and the keyfuncs: for ANY grouping "
               "dimensions and ordering keys every selected note occurs exactly once under the leaves (permutation), sibling "
